@@ -127,6 +127,18 @@ def reply_floats(rep: str):
     return [wf(t) for t in toks]
 
 
+def within(a, b, tol) -> bool:
+    """|a - b| <= tol with the right NaN polarity (lesson 38): a NaN on either side is NOT within tolerance; equal infinities are"""
+    if a == b:
+        return True
+    return bool(abs(a - b) <= tol)
+
+
+def all_within(diff, tol) -> bool:
+    """array version: every |diff| <= tol; NaN anywhere (in diff or tol) gives False"""
+    return bool((diff <= tol).all())
+
+
 def ppk():
     import pypose.optim.kernel as K
     return K
@@ -583,7 +595,7 @@ def kernel_value_oracle(ctx, case, spec, dtn, x, y):
             return False
         want = mp_val(spec, xv)
         tol = TOLK * eps * val_scale(spec, xv) + 4 * TINY[dtn]
-        if abs(mp.mpf(yv) - want) > tol and bad is None:
+        if not (abs(mp.mpf(yv) - want) <= tol) and bad is None:
             bad = (j, xv, yv, float(want), tol)
     if bad:
         j, xv, yv, w, tol = bad
@@ -593,7 +605,7 @@ def kernel_value_oracle(ctx, case, spec, dtn, x, y):
     order = sorted(range(len(xs)), key=lambda j: xs[j])
     for a, b in zip(order, order[1:]):
         tol = TOLK * eps * max(val_scale(spec, xs[a]), val_scale(spec, xs[b])) + 4 * TINY[dtn]
-        if ys[b] < ys[a] - tol:
+        if not (ys[b] >= ys[a] - tol):
             ctx.fail(case, f"kernel-monotone: {spec['kind']}{spec['p']} ({dtn}): rho({xs[a]!r})={ys[a]!r} > rho({xs[b]!r})={ys[b]!r}")
             break
     return True
@@ -613,7 +625,11 @@ def compare_kernel(ctx, case, x, y, rep):
         raise common.InfraError("kernel reply length")
     for xv, yv, w in zip(xs, ys, want):
         tol = TOLK * eps * val_scale(spec, xv) + 4 * TINY[dtn]
-        if abs(yv - float(w)) > tol:
+        if not math.isfinite(yv) and math.isfinite(w):
+            # finiteness BEFORE any tolerance comparison (lesson 38): the model's value is finite, so NaN / inf is not the specified result
+            ctx.fail(case, f"non-finite result: {spec['kind']}{spec['p']} ({dtn}) returns {yv} at the finite valid input x={xv!r} (model {float(w)!r})")
+            return
+        if not within(yv, float(w), tol):
             ctx.disagree("kernel", case, f"{spec['kind']}{spec['p']} ({dtn}) x={xv!r}: implementation {yv!r} model {float(w)!r} tol {tol:.3e}")
             return
 
@@ -639,10 +655,10 @@ def huber_threshold_oracle(ctx, case):
     g, = torch.autograd.grad(y.sum(), x)
     d2 = d * d
     for xv, yv, gv in zip(x.detach().double().tolist(), y.detach().double().tolist(), g.double().tolist()):
-        if abs(yv - d2) > TOLK * eps * 3 * d2:
+        if not (abs(yv - d2) <= TOLK * eps * 3 * d2):          # (NaN must fail: `not <=`)
             ctx.fail(case, f"huber-continuity: value jumps at the threshold: delta={d!r} ({dtn}) x={xv!r} rho={yv!r} delta^2={d2!r}")
             return
-        if abs(gv - 1.0) > TOLK * eps:
+        if not (abs(gv - 1.0) <= TOLK * eps):
             ctx.fail(case, f"huber-slope: slope jumps at the threshold: delta={d!r} ({dtn}) x={xv!r} rho'={gv!r}")
             return
 
@@ -975,7 +991,7 @@ def corrector_oracles(ctx: Ctx, case, R, J, Rc, Jc):
                           + g1[:, None] * np.einsum("iap,ia->ip", np.abs(Jn), np.abs(Rn)))
     # + representability of rho' itself (below the smallest subnormal it is 0 in the dtype)
     tol = TOLK * eps * Gs + 16 * TINY[dtn] + g1_floor(spec, dtn) * np.einsum("iap,ia->ip", np.abs(Jn), np.abs(Rn))
-    if N and (np.abs(G - Gw) > tol).any():
+    if N and not all_within(np.abs(G - Gw), tol):
         i, l = (int(v) for v in np.unravel_index(int(np.argmax(np.abs(G - Gw) - tol)), G.shape))
         cfail(ctx, case, f"grad-law: {case['which']}({spec['kind']}{spec['p']}) J'^T R' != sum rho' J^T R: item {i} (|R_i|^2={float(xs[i])!r}) "
                        f"component {l}: {float(G[i, l])!r} vs rho' J_i^T R_i = {float(Gw[i, l])!r} (tol {float(tol[i, l]):.3e}; dtype {dtn}, "
@@ -990,7 +1006,7 @@ def corrector_oracles(ctx: Ctx, case, R, J, Rc, Jc):
     Hs = ampv[:, None, None] * (np.einsum("iap,iaq->ipq", Ja, Ja) + g1[:, None, None] * np.einsum("iap,iaq->ipq", np.abs(Jn), np.abs(Jn))
                                 + np.abs(cur)[:, None, None] * np.einsum("ip,iq->ipq", JRa, JRa))
     tolh = TOLK * eps * Hs + 16 * TINY[dtn] + g1_floor(spec, dtn) * np.einsum("iap,iaq->ipq", np.abs(Jn), np.abs(Jn))
-    if N and (np.abs(H - Hw) > tolh).any():
+    if N and not all_within(np.abs(H - Hw), tolh):
         idx = tuple(int(v) for v in np.unravel_index(int(np.argmax(np.abs(H - Hw) - tolh)), H.shape))
         name = "hess-law" if case["which"] == "triggs" else "fast-hess-law"
         cfail(ctx, case, f"{name}: {case['which']}({spec['kind']}{spec['p']}) J'^T J' != sum rho' J^T J + 2 rho'' J^T R R^T J on the mask: "
@@ -1044,7 +1060,7 @@ def check_corrector(ctx: Ctx, case, cobj=None, fobj=None):
                 am = case["_amp"][i]
                 dr = (Rt[i] - Rf[i]).abs() - 16 * am * eps * Rf[i].abs() - 4 * TINY[dtn]
                 dj = (Jt[i] - Jf[i]).abs() - 16 * am * eps * (Jf[i].abs() + torch.from_numpy(case["_E"][i]).to(Jf.dtype)) - 4 * TINY[dtn]
-                if bool((dr > 0).any()) or bool((dj > 0).any()):
+                if not (bool((dr <= 0).all()) and bool((dj <= 0).all())):
                     cfail(ctx, case, f"elsewhere: Triggs differs from FastTriggs on item {i} where rho''<=0 or R_i=0 "
                                    f"({spec['kind']}{spec['p']}, R_i={R.reshape(N, d)[i].tolist()})")
                     break
@@ -1088,12 +1104,12 @@ def compare_corrector(ctx: Ctx, case, R, J, Rc, Jc, rep, stream=None):
             rr = np.abs(Rn[i])[:, None] * (np.abs(Rn[i]) @ np.abs(Jn[i]))[None, :] / x
             tolJ = tolJ + TOLK * amp * eps * se * al * rr
             tolR = tolR + TOLK * eps * d2_noise(spec, x) * np.abs(Rm[i])
-        if (np.abs(Ri[i] - Rm[i]) > tolR).any():
+        if not all_within(np.abs(Ri[i] - Rm[i]), tolR):
             a = int(np.argmax(np.abs(Ri[i] - Rm[i]) - tolR))
             mismatch(ctx, stream, case, f"{case['which']}({spec['kind']}{spec['p']}, {dtn}) R' item {i} comp {a}: implementation {Ri[i][a]!r} "
                                        f"model {Rm[i][a]!r} tol {tolR[a]:.3e}; R_i={Rn[i].tolist()} masked={masked}")
             return False
-        if (np.abs(Ji[i] - Jm[i]) > tolJ).any():
+        if not all_within(np.abs(Ji[i] - Jm[i]), tolJ):
             idx = np.unravel_index(int(np.argmax(np.abs(Ji[i] - Jm[i]) - tolJ)), Ji[i].shape)
             mismatch(ctx, stream, case, f"{case['which']}({spec['kind']}{spec['p']}, {dtn}) J' item {i} entry {tuple(int(v) for v in idx)}: "
                                        f"implementation {Ji[i][idx]!r} model {Jm[i][idx]!r} tol {tolJ[idx]:.3e}; R_i={Rn[i].tolist()} masked={masked}")
@@ -1353,7 +1369,7 @@ def select_structure_oracle(ctx, case, opt, kernel, corrector):
             return False
         for i, (o, w) in enumerate(zip(oc, kl)):
             want = probe.sum() if w is None else w(probe).sum()
-            if abs(float(o.func(probe)) - float(want)) > 1e-12 * (1 + abs(float(want))):
+            if not (abs(float(o.func(probe)) - float(want)) <= 1e-12 * (1 + abs(float(want)))):
                 ctx.fail(case, f"select-structure: auto corrector {i} is not FastTriggs of kernel {i} ({'Trivial' if w is None else type(w).__name__})")
                 return False
     return True
@@ -1621,12 +1637,12 @@ def check_select(ctx: Ctx, case, pre=None):
                 ctx.count(f"select.step-vs-model.{case['opt']}")
                 unweighted = all(w == 1.0 for w in wk)
                 if unweighted or case["opt"] == "GN":
-                    if (np.abs(got - np.array(sv[1:], dtype=np.longdouble)) > tol).any():
+                    if not all_within(np.abs(got - np.array(sv[1:], dtype=np.longdouble)), tol):
                         mismatch(ctx, "step", {**clean(case), "step": step}, f"{case['opt']}: J'^T R' handed to the solver {got.astype(float).tolist()} != "
                                  f"model stepJtR {sv[1:]} (kernel={case['karg']}, corrector={case['carg']})")
                         broken = True
                 step_loss_model = sv[0]
-            if case["opt"] == "LM" and (np.abs(got - tot_cmp) > tol).any():
+            if case["opt"] == "LM" and not all_within(np.abs(got - tot_cmp), tol):
                 mismatch(ctx, "select", {**clean(case), "step": step}, f"LM right-hand side {got.astype(float).tolist()} != model J'^T R' "
                                                                        f"{tot.astype(float).tolist()} (selection {sc})")
                 broken = True
@@ -1641,10 +1657,10 @@ def check_select(ctx: Ctx, case, pre=None):
                 wsc += sum(val_scale(sp, float(x)) + float(mp_d1(sp, float(x))) * float(x) * shapes[j][1]
                            for x in Rs[j].double().square().sum(-1).flatten().tolist())
                 ri += 1
-        if abs(mp.mpf(float(loss)) - want) > TOLK * eps * wsc * 2 + 16 * TINY[dtn]:
+        if not (abs(mp.mpf(float(loss)) - want) <= TOLK * eps * wsc * 2 + 16 * TINY[dtn]):
             ctx.disagree("select", {**clean(case), "step": step}, f"loss {float(loss)!r} != model {float(want)!r} (loss kernels {lk})")
             broken = True
-        if st_ == "ok" and "-" not in lk and (case["opt"] == "GN" or step == 0) and abs(float(loss) - step_loss_model) > TOLK * eps * wsc * 2 + 16 * TINY[dtn]:
+        if st_ == "ok" and "-" not in lk and (case["opt"] == "GN" or step == 0) and not (abs(float(loss) - step_loss_model) <= TOLK * eps * wsc * 2 + 16 * TINY[dtn]):
             mismatch(ctx, "step", {**clean(case), "step": step}, f"loss {float(loss)!r} != model lossTotal {step_loss_model!r}")
             broken = True
         # --- oracle: the direction handed to the solver is the gradient of the loss the optimiser reports
@@ -1670,11 +1686,11 @@ def check_select(ctx: Ctx, case, pre=None):
                 ctx.fail({**clean(case), "step": step}, f"select-finite: gradient of the reported loss is not finite: {gl.astype(float).tolist()}")
                 return
             tol = TOLK * 4 * eps * sc_ + 16 * TINY[dtn]
-            if (np.abs(2 * rhs - gl) > tol).any():
+            if not all_within(np.abs(2 * rhs - gl), tol):
                 cfail(ctx, {**clean(case), "step": step}, f"descent-direction: {case['opt']} with kernel={case['karg']} corrector={case['carg']}: "
                          f"2*J'^T R' = {(2 * rhs).astype(float).tolist()} but the gradient of the reported loss is {gl.astype(float).tolist()}")
                 return
-            if abs(float(L.detach()) - float(loss)) > TOLK * eps * wsc * 2 + 16 * TINY[dtn]:
+            if not (abs(float(L.detach()) - float(loss)) <= TOLK * eps * wsc * 2 + 16 * TINY[dtn]):
                 ctx.fail({**clean(case), "step": step}, f"loss-report: step returned {float(loss)!r} but model.loss is {float(L)!r}")
                 return
         if broken:
@@ -2602,6 +2618,10 @@ def run_sandwich(ctx: Ctx):
             for op in between[si % 3::3]:          # a third of the operations per subject, all of them over three subjects
                 op()
             second = call()
+            for a in first + second:
+                if not bool(torch.isfinite(a).all()):
+                    ctx.fail(case, f"non-finite result: {which}({spec['kind']}) on shape {shape} (d={d}) returns NaN / inf for a finite valid input")
+                    return
             for a, b in zip(first, second):
                 if a.shape != b.shape or not torch.equal(torch.nan_to_num(a, nan=1.5), torch.nan_to_num(b, nan=1.5)):
                     ctx.fail(case, f"sandwich: {which}({spec['kind']}) on shape {shape} (d={d}) gives a different result after other kernels / correctors "
